@@ -225,9 +225,34 @@ class PCT(Decider):
 # ---------------------------------------------------------------------------
 
 
+class RandomChooser(object):
+    """Network/fault choices: 0 (the benign alternative) with probability p_zero."""
+
+    def __init__(self, rng, p_zero=0.5):
+        self.rng = rng
+        self.p_zero = p_zero
+
+    def choose(self, n, kind, index):
+        if self.rng.random() < self.p_zero:
+            return 0
+        return self.rng.randrange(n)
+
+
+class TapeChooser(object):
+    def __init__(self, tape):
+        self.tape = list(tape)
+
+    def choose(self, n, kind, index):
+        return self.tape[index] if index < len(self.tape) else 0
+
+
 class Sched(object):
-    def __init__(self, decider, step_cap=200000, horizon=INF, record=True):
+    def __init__(self, decider, step_cap=200000, horizon=INF, record=True, chooser=None):
         self.decider = decider
+        self.chooser = chooser
+        self.net = None
+        self.net_trace = []
+        self.idgen = 0
         self.threads = []
         self.by_ident = {}
         self.current = None
@@ -268,9 +293,19 @@ class Sched(object):
     def probe(self, name, n=1):
         self.probes[name] = self.probes.get(name, 0) + n
 
+    def choose(self, n, kind="net"):
+        """A recorded non-scheduling choice in [0, n); 0 is the benign alternative."""
+        if n <= 1:
+            return 0
+        c = self.chooser
+        v = c.choose(n, kind, len(self.net_trace)) % n if c is not None else 0
+        self.net_trace.append(v)
+        return v
+
     def digest(self):
         h = self._h.copy()
         h.update(repr(self.log).encode("utf-8", "backslashreplace"))
+        h.update(repr(self.net_trace).encode())
         h.update(repr((self.now, self.step, self.nswitch)).encode())
         return h.hexdigest()
 
